@@ -129,7 +129,17 @@ func c12Execute(si int, choices []int, snapshotEveryPoint bool) c12Exec {
 	before := snap.Take(false, shared...)
 	var ex c12Exec
 	if snapshotEveryPoint {
+		// S9 has ~1 300 yield points per execution (one per byte of the long texts): its mid-execution snapshots are taken at
+		// every 8th yield point; the snapshot at the end of every execution is always taken
+		stride, n := 1, 0
+		if si == 9 {
+			stride = 8
+		}
 		s.onPoint = func() {
+			n++
+			if n%stride != 0 {
+				return
+			}
 			if snap.Take(false, shared...).Hash != before.Hash {
 				ex.midChanges++
 			}
@@ -267,6 +277,13 @@ func c12Run(c *engine.Ctx) {
 			}
 		} else if !c.Quick() && (si <= 3 || si == 8) {
 			bound = 3
+		}
+		if si == 9 {
+			// long texts: several hundred yield points per thread
+			bound = 1
+			if !c.Quick() {
+				bound = 2
+			}
 		}
 		// sequential reference (computed twice: the observations must be deterministic)
 		var want []string
